@@ -4,7 +4,7 @@
    statement lists to the functions the property theorems are about.  FactsCheck.v then shows
    that what was extracted normalises to the expected lists. *)
 From Common Require Import Prelude.
-From C15 Require Import Model Proofs.
+From C15 Require Import Model Proofs ProofsCodec ProofsInto.
 Local Open Scope Z_scope.
 
 (* size_t expressions over the cursor member, the size/count parameter and buffer->size() *)
@@ -271,3 +271,83 @@ Qed.
 Definition overload_ids : list N := [1; 2; 3; 4]%N.
 Definition overload_ok (l : list (N * bool)) : bool :=
   (if list_eq_dec N.eq_dec (map fst l) overload_ids then true else false) && forallb (fun p => snd p) l.
+
+(* ---------------------------------- operator>> for std::vector<T> and std::string *)
+(* statement shapes of the two read overloads that own a destination *)
+Inductive rstmt :=
+| RReadLen          (* buf >> sz;                                               *)
+| RResize           (* rh.resize(sz);                                           *)
+| RReserve          (* rh.reserve(sz);                                          *)
+| RClear            (* rh.clear();                                              *)
+| RFillLoop         (* for (i = 0; i < sz; ++i) buf >> rh[i];                   *)
+| RAppendLoop       (* for (i = 0; i < sz; ++i) { T x; buf >> x; rh.push_back(x); } *)
+| RReadBytes        (* buf.read(rh.data(), sz);                                 *)
+| RReturn
+| RUnknown.
+
+(* vector: the destination is the list of elements it holds *)
+Fixpoint exec_vecread (ss : list rstmt) (sh' : shape) (sz : Z) (dst : list value) (r : reader) : rres value :=
+  match ss with
+  | [] => ROk (VVec dst) r
+  | s :: ss' =>
+      match s with
+      | RReadLen => rbind (rd_read r true 8) (fun szb r1 => exec_vecread ss' sh' (le_val szb) dst r1)
+      | RResize => exec_vecread ss' sh' sz (resize_list dst (Z.to_nat sz) (default_value sh')) r
+      | RReserve => exec_vecread ss' sh' sz dst r
+      | RClear => exec_vecread ss' sh' sz [] r
+      | RFillLoop =>
+          if Nat.ltb (length dst) (Z.to_nat sz) then ROob        (* rh[i] past the end *)
+          else rbind (rep_into (get_into sh') (firstn (Z.to_nat sz) dst) r) (fun vs r2 =>
+               exec_vecread ss' sh' sz (vs ++ skipn (Z.to_nat sz) dst) r2)
+      | RAppendLoop =>
+          rbind (rep_get (get sh') (Z.to_nat sz) r) (fun vs r2 => exec_vecread ss' sh' sz (dst ++ vs) r2)
+      | RReturn => ROk (VVec dst) r
+      | _ => ROob
+      end
+  end.
+
+Definition exp_vec_read : list rstmt := [RReadLen; RResize; RFillLoop; RReturn].
+
+Lemma exp_vec_read_ok sh' old r :
+  exec_vecread exp_vec_read sh' 0 (old_elems old) r = get_into (SVec sh') old r.
+Proof.
+  unfold exp_vec_read. cbn [exec_vecread get_into].
+  destruct (rd_read r true 8) as [| |szb r1]; cbn [rbind]; try reflexivity. cbv zeta.
+  set (olds := resize_list (old_elems old) (Z.to_nat (le_val szb)) (default_value sh')).
+  assert (L : length olds = Z.to_nat (le_val szb)) by apply resize_list_length.
+  rewrite L, Nat.ltb_irrefl. rewrite <- L, firstn_all, skipn_all.
+  destruct (rep_into (get_into sh') olds r1) as [| |vs r2]; cbn [rbind]; try reflexivity.
+  now rewrite app_nil_r.
+Qed.
+
+(* the append-based shape is get_into_vec_append, i.e. NOT the specified reader *)
+Lemma append_shape_is_append sh' old r :
+  exec_vecread [RReadLen; RReserve; RAppendLoop; RReturn] sh' 0 (old_elems old) r = get_into_vec_append sh' old r.
+Proof.
+  unfold get_into_vec_append. cbn [exec_vecread].
+  destruct (rd_read r true 8) as [| |szb r1]; cbn [rbind]; try reflexivity.
+Qed.
+
+(* string: the destination is its characters *)
+Fixpoint exec_strread (ss : list rstmt) (sz : Z) (dst : list N) (r : reader) : rres value :=
+  match ss with
+  | [] => ROk (VStr dst) r
+  | s :: ss' =>
+      match s with
+      | RReadLen => rbind (rd_read r true 8) (fun szb r1 => exec_strread ss' (le_val szb) dst r1)
+      | RResize => exec_strread ss' sz (resize_list dst (Z.to_nat sz) 0%N) r
+      | RReserve => exec_strread ss' sz dst r
+      | RClear => exec_strread ss' sz [] r
+      | RReadBytes => rbind (rd_read r true sz) (fun bs r2 => exec_strread ss' sz (overwrite dst bs) r2)
+      | RReturn => ROk (VStr dst) r
+      | _ => ROob
+      end
+  end.
+
+Definition exp_str_read : list rstmt := [RReadLen; RResize; RReadBytes; RReturn].
+
+Lemma exp_str_read_ok old r : exec_strread exp_str_read 0 (old_bytes old) r = get_into SStr old r.
+Proof.
+  unfold exp_str_read. cbn [exec_strread get_into].
+  destruct (rd_read r true 8) as [| |szb r1]; cbn [rbind]; reflexivity.
+Qed.
